@@ -336,6 +336,20 @@ def stepMain (ds : DState) (toks : List String) : DState × String :=
   | ["mkdir", d] =>
     if (s.world.get d).isSome then (ds, "ok") else ({ ds with st := { s with world := s.world.set d DirSt.empty } }, "ok")
   | ["rmdir", d] => ({ ds with st := { s with world := s.world.remove d } }, "ok")
+  | ["rmfile", d, file] =>
+    -- one file of a CLOSED directory disappears (e.g. the completion marker of a merge directory: the state right before it was written)
+    match s.world.get d with
+    | none => (ds, "err:remove")
+    | some dir =>
+      if file.endsWith ".merge-finished" then
+        if dir.marker.isSome then ({ ds with st := { s with world := s.world.set d { dir with marker := none } } }, "ok") else (ds, "err:remove")
+      else if file.endsWith ".hint" then
+        if dir.hint.isSome then ({ ds with st := { s with world := s.world.set d { dir with hint := none } } }, "ok") else (ds, "err:remove")
+      else if file.endsWith ".data" then
+        let id := (file.take 9).toString.toNat!
+        if (getFile dir.data id).isSome then ({ ds with st := { s with world := s.world.set d { dir with data := removeFile dir.data id } } }, "ok")
+        else (ds, "err:remove")
+      else (ds, "err:remove")
   | ["trunc", d, file, n] =>
     match s.world.get d with
     | none => (ds, "err:trunc")
